@@ -6,16 +6,17 @@ PROP = dict(
         "statime_wire::Message::{deserialize,serialize}, TlvSetBuilder, TlvSet iteration (reached from handle_packet)",
     ],
     bounds="c45_handle: request template Sync + CSPTP request TLV (52 bytes; messageType nibble, messageLength, TLV type and length concrete, the other 46 bytes symbolic: sdoId, version, domain, flags, correctionField, "
-           "sourcePortIdentity, sequenceId, originTimestamp, request flags incl. status bit); c45_handle_any: every byte string of length <= 52 (quick) / <= 56 (thorough), symbolic length; "
+           "sourcePortIdentity, sequenceId, originTimestamp, request flags incl. status bit); c45_handle_other / c45_handle_any: byte strings of symbolic length <= 52 (<= 56 in c45_handle_any_56) whose first octet (sdoId high nibble + messageType) is fixed per run to 0x30 or to one of 11 representatives of the other classes, all other bytes unstructured; "
            "server state symbolic (grandmaster identity/priorities/quality/stepsRemoved/timescale+traceable flags, leap indicator), reception timestamp symbolic, addresses symbolic, send_event result symbolic (Ok(any timestamp) | Err), send_general result symbolic",
-    outside="serve() loop (shutdown race, socket recv errors); datagrams longer than 56 bytes in the 'answers only requests' direction (requests with more than one extra TLV); nanoseconds fields equal to 10^9 exactly in the template (parser/Timestamp::new disagreement, see report); "
+    outside="first octets other than the 12 representatives (sdoId high nibble other than 0 and 3); serve() loop (shutdown race, socket recv errors); datagrams longer than 56 bytes in the 'answers only requests' direction (requests with more than one extra TLV); nanoseconds fields equal to 10^9 exactly in the template (parser/Timestamp::new disagreement, see report); "
             "status TLV clock-quality bytes (checked: priorities, stepsRemoved, identity, TLV type/length)",
     assumptions=["template request: originTimestamp nanoseconds != 10^9", "reception and send timestamps satisfy the Timestamp::new invariant"],
     stub_notes=["no stubs; ServerSocket implemented by the harness (records the datagrams and addresses given to send_event/send_general, returns scripted results)"],
     harnesses=[
         H(ST, "c45", "c45_handle", "template request: answered iff sdoId 0x300 / PTP version 2 / valid timestamp; response echoes domain, sequence id, correctionField -> reqCorrectionField, reception time -> reqIngressTimestamp, two-step+unicast flags, leap flags, status TLV iff requested; "
                                    "follow-up iff send_event succeeded, carrying its timestamp; addresses swapped correctly", timeout=600),
-        H(ST, "c45", "c45_handle_any", "U(52): anything sent => raw datagram is a PTPv2 Sync with sdoId 0x300 carrying a CSPTP request TLV inside messageLength; same echo checks", timeout=600),
-        H(ST, "c45", "c45_handle_any_56", "U(56)", tier="thorough", timeout_thorough=1800),
+        H(ST, "c45", "c45_handle_other", "first octet in {nine non-Sync types, an undefined type} under sdoId 0x3xx and Sync under a foreign sdoId, remaining <= 51 bytes unstructured: never answered", timeout=600),
+        H(ST, "c45", "c45_handle_any", "first octet 0x30 (CSPTP Sync), remaining <= 51 bytes unstructured (messageLength, TLV chain): anything sent => raw datagram is a PTPv2 Sync with sdoId 0x300 carrying a CSPTP request TLV inside messageLength; same echo checks", tier="thorough", timeout_thorough=1800),
+        H(ST, "c45", "c45_handle_any_56", "the same with <= 55 unstructured bytes", tier="thorough", timeout_thorough=1800),
     ],
 )
